@@ -274,6 +274,104 @@ def rule_writeback(ctx, rep, rule="R-WRITEBACK"):
     return n
 
 
+PARK_CALLS = ("<core::mem::manually_drop::ManuallyDrop<T>>::new",)
+UNPARK_CALLS = (
+    "core::ptr::read", "<*const T>::read", "<*mut T>::read", "core::ptr::copy_nonoverlapping", "core::ptr::copy", "core::intrinsics::copy_nonoverlapping",
+    "<*const T>::copy_to_nonoverlapping", "<*const T>::copy_to", "<*mut T>::copy_from_nonoverlapping", "<*mut T>::copy_from", "<*mut T>::copy_to_nonoverlapping", "<*mut T>::copy_to",
+    "<core::mem::manually_drop::ManuallyDrop<T>>::into_inner", "<core::mem::manually_drop::ManuallyDrop<T>>::take", "<core::mem::manually_drop::ManuallyDrop<T>>::drop",
+)
+
+
+def rule_parked(ctx, rep, rule="R-PARKED"):
+    """A caller-supplied value (header, element, payload: a type that mentions a type parameter, needs dropping and is not a handle)
+    that is parked in `ManuallyDrop` for a bitwise hand-over must be handed over before anything can unwind: between the parking
+    and the copy/read/take that re-materialises it there is no call that can panic for a reason a caller can bring about,
+    otherwise that value is destroyed zero times."""
+    n = 0
+    for tag, F, E in ctx.each():
+        A = analysis(tag, F, E)
+        for b in F.body_list:
+            if b["kind"] not in ("Fn", "AssocFn") or b["key"] in A.errors:
+                continue
+            B = None
+            for bi, bl in enumerate(b["blocks"]):
+                t = bl["term"]
+                if t["k"] != "call":
+                    continue
+                r = t.get("resolved")
+                path = r["def"] if isinstance(r, dict) else (t.get("callee") or "")
+                if path not in PARK_CALLS or not t["args"]:
+                    continue
+                targs = [a["t"] for a in (r["args"] if isinstance(r, dict) else t.get("callee_args") or []) if "t" in a]
+                if not targs:
+                    continue
+                ty = targs[0]
+                if F.tokens(ty)[0] or not F.mentions_param(ty):
+                    continue  # a handle (the ownership algebra follows those), or nothing caller-supplied
+                dl = t["dest"]["l"]
+                if not b["locals"][dl].get("needs_drop_inner", True):
+                    continue
+                n += 1
+                if B is None:
+                    B = cfg.Body(b)
+                ik = "%s/parked:%s" % (b["key"], F.ts(ty))
+                # blocks where the parked value is re-materialised
+                unpark = set()
+                for bj, t2 in B.calls():
+                    r2 = t2.get("resolved")
+                    p2 = r2["def"] if isinstance(r2, dict) else (t2.get("callee") or "")
+                    if p2 in UNPARK_CALLS and any(_rooted_local(B, a, dl) for a in t2["args"]):
+                        unpark.add(bj)
+                bad = None
+                for p in A.paths.get(b["key"], []):
+                    if p.exit != "unw" or (p.origin or "std") not in ("user", "panic", "maypanic"):
+                        continue
+                    blocks = list(p.blocks)
+                    if bi not in blocks:
+                        continue
+                    i0 = blocks.index(bi)
+                    started = None
+                    for e in p.events:
+                        d = e["detail"]
+                        if isinstance(d, dict) and d.get("outcome") == "unw":
+                            started = e
+                    if started is None or started["bb"] not in blocks[i0 + 1 :]:
+                        continue
+                    i1 = i0 + 1 + blocks[i0 + 1 :].index(started["bb"])
+                    if any(x in unpark for x in blocks[i0 + 1 : i1]):
+                        continue
+                    bad = (p, started)
+                    break
+                if bad:
+                    p, e = bad
+                    rep.bad(rule, ik, path_report(F, b, p, "a caller-supplied value of type %s is parked in ManuallyDrop (line %s) and the call at line %s can then unwind (%s) before the value has been handed over: nobody destroys it - it is lost" % (F.ts(ty), t["span"]["line"], e["span"]["line"], "user code" if p.origin == "user" else "a panic a caller can provoke, e.g. an overflowing length")), F.loc(b, t["span"]), tag)
+                else:
+                    rep.ok(rule, ik, cfg=tag)
+    return n
+
+
+def _rooted_local(B, op, l, depth=0):
+    """Does the operand derive (moves, borrows, casts, Deref of ManuallyDrop) from local l?"""
+    if depth > 12:
+        return False
+    pl = operand_place(op)
+    if pl is None:
+        return False
+    if pl["l"] == l:
+        return True
+    for d in B.defs().get(pl["l"], []):
+        if d[0] == "call":
+            if any(_rooted_local(B, a, l, depth + 1) for a in d[2]["args"]):
+                return True
+        else:
+            rv = d[3]
+            if rv["k"] in ("use", "cast") and _rooted_local(B, rv["op"], l, depth + 1):
+                return True
+            if rv["k"] in ("ref", "rawptr") and (rv["place"]["l"] == l or _rooted_local(B, {"cp": {"l": rv["place"]["l"], "p": []}}, l, depth + 1)):
+                return True
+    return False
+
+
 def _is_atomic_ty(F, i):
     t = F.ty(i)
     return t["k"] == "adt" and t["path"].startswith("core::sync::atomic::Atomic")
@@ -467,6 +565,15 @@ def free_sites(F):
                     x = [a["t"] for a in r["args"] if "t" in a]
                     if x and F.is_adt(x[0], F.inner_path):
                         out.append((b, bi, t, "Box::drop on INNER"))
+                elif cls == model.DROPV and isinstance(r, dict):
+                    # `drop(Box::from_raw(block))`
+                    x = [a["t"] for a in r["args"] if "t" in a]
+                    if x:
+                        ty = F.ty(x[0])
+                        if ty["k"] == "adt" and ty["path"] == "alloc::boxed::Box":
+                            y = [a["t"] for a in ty["args"] if "t" in a]
+                            if y and F.is_adt(y[0], F.inner_path):
+                                out.append((b, bi, t, "drop(Box<INNER>)"))
     return out
 
 
